@@ -7,6 +7,7 @@ import GoNfsd.Driver.Simple
 import GoNfsd.Driver.Locks
 import GoNfsd.Driver.Wal
 import GoNfsd.Driver.Fsck
+import GoNfsd.Driver.BlockMap
 
 def main (args : List String) : IO UInt32 :=
   match args with
@@ -19,6 +20,7 @@ def main (args : List String) : IO UInt32 :=
   | ["locks"] => GoNfsd.Driver.Locks.main
   | ["wal"] => GoNfsd.Driver.Wal.main
   | ["fsck"] => GoNfsd.Driver.Fsck.main
+  | ["blockmap"] => GoNfsd.Driver.BlockMap.main
   | _ => do
     IO.eprintln "usage: drv <mkfs>"
     return 2
